@@ -1505,4 +1505,7 @@ def isFloatLitPy (tok : Text) : Bool :=
   | some t => t == strip t && isFloatLit t
   | none => false
 
+/-- no character of the token is one of the separators `\x1c`–`\x1f` -/
+def noFs (t : Text) : Bool := t.all (fun c => !(28 ≤ c && c ≤ 31))
+
 end Coba.C12
